@@ -75,7 +75,7 @@ LEVEL_TEXT = ("Kernel-checked Lean theorems for the system model (real transcrip
               "entry equals the published change, payload included, fragmented or not), C01_no_skip / C01_held_not_skipped (every number "
               "at or below available_changes_max was delivered or had been removed / was never relevant; a change still held and relevant "
               "below that mark IS in the cache) and C01_no_panic (no step list panics the endpoints, in particular the NACK_FRAG "
-              "construction) - proved for the tree with the fix patches (each theorem names the patches it needs); as-is witnesses C01_gap_skip_asis_counterexample (D2), C01_rematch_duplicates_asis_counterexample (D43). "
+              "construction), C01_forged_hb_no_duplicate (in every reachable state a HEARTBEAT of any content followed by a copy of the DATA of a delivered sample changes nothing) - proved for the tree with the fix patches (each theorem names the patches it needs); as-is witnesses C01_gap_skip_asis_counterexample (D2), C01_rematch_duplicates_asis_counterexample (D43). "
               "PARTIAL: the liveness clause C01_eventual is stated but not proved; it is checked by the oracle after a healing suffix "
               "on every generated schedule.")
 LEVEL_NOTE = ("Trusted: Lean kernel; Model/Rtps.lean (one writer, one reader, Nat sequence numbers and counts, clock as input); "
